@@ -42,8 +42,10 @@ def _call(f, *a, **kw):
 # spooled files
 
 _tpiece = st.one_of(
-    st.sampled_from(['a', 'b', '\n', '\n', '\xe9', '\u20ac', '\U0001f600', 'ab', 'line\n', '\xe9\u20ac\n']),
-    st.text(alphabet='ab\n\xe9\u20ac\U0001f600', max_size=6),
+    st.sampled_from(['a', 'b', '\n', '\n', '\xe9', '\u20ac', '\U0001f600', 'ab', 'line\n', '\xe9\u20ac\n',
+                     # the first and last code points of every UTF-8 length (lead/continuation bytes 0x80, 0xBF, 0xC2, 0xDF, 0xEF, 0xF4)
+                     '\x80', '\xbf', '\xff', '\u07ff', '\u0800', '\uffff', '\U00010000', '\U0010ffff', '\U0001f37f']),
+    st.text(alphabet='ab\n\xe9\u20ac\U0001f600\xbf\u07ff\uffff', max_size=6),
 )
 _tpiece_seps = st.one_of(_tpiece, st.sampled_from(['\r', '\r\n', '\x0b', '\x85', '\u2028', 'a\rb', '\x1c']))
 _bpiece = st.one_of(
